@@ -457,6 +457,10 @@ PROPS = {
         runs=[
             Run("rawdb", "layout", [], (240, 60), (4000, 250), proj_c02, ["C02", "panic"], rawdb_features),
             Run("rawdb", "refusals", ["--malformed"], (80, 40), (1500, 120), proj_c02, ["C02", "panic"], rawdb_features),
+            # now and then one write larger than the whole file: growth beyond doubling, relocation to the end of the file
+            Run("rawdb", "huge", ["--huge"], (32, 14), (160, 30), proj_c02, ["C02", "C05", "panic"], rawdb_features),
+            # refused removals (another handle alive) in the middle of a history: the layout must not have been touched
+            Run("rawdb", "held", ["--held", "--held-anywhere"], (64, 50), (600, 120), proj_c02, ["C02", "C13", "panic"], rawdb_features),
         ],
         rule=RAWDB_RULE,
         assumptions=["Layout accessors pending_holes/start_to_reserved exposed by the verif_hooks feature (read-only)"],
@@ -634,6 +638,9 @@ PROPS = {
         runs=[
             Run("vec", "plain-reads", ["--mode", "plain", "--reads"], (140, 50), (600, 110), proj_vec, ["C08", "panic"], vec_features),
             Run("vec", "rollback-reads", ["--mode", "rollback", "--reads"], (84, 50), (350, 100), proj_vec, ["C08", "panic"], vec_features),
+            # stored ranges larger than the 512 KiB buffer of the file-IO scan (refill path), element sizes incl. a non-power-of-two;
+            # oracle only (all read paths against the reference slice): the Lean driver is too slow on lists of 10^5..10^6 elements
+            Run("vec", "bigscan", ["--mode", "bigscan", "--reads"], (15, 6), (60, 10), proj_vec, ["C08", "panic"], vec_features, driver=False),
         ],
         rule=VEC_RULE + "; about one request in five is `reads <seed>`: 24 ranges with ends drawn from {0, 1, stored-1, stored, stored+1, len-1, len, len+1, page-1, page, page+1, 2^63-1} or uniformly (reversed, empty and out-of-range included) and 12 point reads, each through every read API of the read-write vector, and on clean states also of its read-only clone and the two stored-only scan back-ends; cursor scripts and sorted reads on hole-free states",
         assumptions=["cursor and sorted reads address by index only on vectors without deleted slots (the chunked refill of a cursor compacts deleted slots away): they are exercised on hole-free states"],
@@ -646,6 +653,8 @@ PROPS = {
         lean_extra=["AnyDB.Props.C05History"],
         runs=[
             Run("crash", "crash-images", ["--mixes", "6"], (96, 30), (400, 50), proj_events, ["C05", "panic"], crash_features, driver_engine="rawdb"),
+            # "inside the file" after a reopen, with writes larger than the whole file (no crash images: the files are several MiB)
+            Run("rawdb", "huge", ["--huge"], (32, 14), (160, 30), proj_c02, ["C05", "C02", "panic"], rawdb_features),
         ],
         rule=RAWDB_RULE + "; histories are generated as for C01/C02 (files kept near 1 MiB, writes ≤ 20 kB) with a flush early in the case; after the first completed flush EVERY event boundary is a crash point; per point: sync-only image, all-written image, for every dirty metadata page three single-page deviations, and 6 (quick) random per-page mixtures of all versions since the last sync of each file; the real Database::open runs on every image",
         assumptions=["4 KiB page writes are atomic; file-length changes are durable in order; fdatasync makes every page stored through the shared mapping durable; a page not stored to since the last sync keeps its synced content (the OS contract of DESIGN.md §7)", "hook H2 (durability event tap) reports every store / set_len / sync / punch"],
